@@ -125,6 +125,7 @@ type keyInfo struct {
 	windowOut bool // a window check with now-hw > t happened on it
 	memDrop   bool // appended over the memory limit while not saved
 	crashed   bool // restart while not saved
+	diskLimit bool // thrown out by goEraseHistoric because the disk cache is over its size limit
 	run       int  // run (between restarts) in which it was accepted
 }
 
@@ -226,7 +227,7 @@ func agentHistory(r *vu.Rng, o *vu.Out, addrs []string, sc *script, caseNo int, 
 			if onlyRun >= 0 && ki.run != onlyRun {
 				continue
 			}
-			if vis[ki.t] || ki.acked || ki.windowOut || ki.memDrop || ki.crashed {
+			if vis[ki.t] || ki.acked || ki.windowOut || ki.memDrop || ki.crashed || ki.diskLimit {
 				continue
 			}
 			fail("forget_only_after_ack", fmt.Sprintf("%s: second key=%d t=base%s is neither in memory nor on disk, and no discard response / window drop / memory-limit drop / crash explains it", where, k, rel(base, ki.t)))
@@ -245,6 +246,9 @@ func agentHistory(r *vu.Rng, o *vu.Out, addrs []string, sc *script, caseNo int, 
 		}
 		if choice >= 88 && choice < 94 && !diskOn {
 			choice = 5
+		}
+		if choice >= 88 && choice < 94 && diskOn && !synthetic && run == 0 && len(out) == 0 && eraseAllPossible(v, keys, run) && r.Chance(60) {
+			choice = 95
 		}
 		var nowReal uint32
 		switch {
@@ -477,10 +481,65 @@ func agentHistory(r *vu.Rng, o *vu.Out, addrs []string, sc *script, caseNo int, 
 			ops = append(ops, fmt.Sprintf("OEraseIter %d%%nat %s %d false %s", ki.key, rel(base, now), hw, vu.B(over)))
 			obs = append(obs, fmt.Sprintf("(RIter %s false %s)", vu.B(dropped), vu.B(dropped)))
 			text = append(text, fmt.Sprintf("erase(k%d,now%s,hw=%d,over=%v)", ki.key, rel(base, now), hw, over))
+		case choice >= 94 && choice < 97 && diskOn && !synthetic && run == 0 && len(out) == 0 && eraseAllPossible(v, keys, run):
+			// the real goEraseHistoric goroutine with the disk cache over its size limit: every second of the historic
+			// queue is thrown out, oldest first (then the process is restarted: the goroutine never returns)
+			nowReal = uint32(time.Now().Unix())
+			h := v.Hist()
+			sort.Slice(h, func(a, b int) bool { return h[a].Time < h[b].Time })
+			before := map[int64]bool{}
+			ids0, _ := v.Known()
+			for _, id := range ids0 {
+				before[id] = true
+			}
+			done := v.EraseAllOverDiskLimit(8 * time.Second)
+			if !done {
+				fail("disk_limit_eraser_stuck", "goEraseHistoric did not empty the historic queue")
+			}
+			ids1, _ := v.Known()
+			after := map[int64]bool{}
+			for _, id := range ids1 {
+				after[id] = true
+			}
+			for _, c := range h {
+				ki := byTime[c.Time]
+				ki.diskLimit = true
+				if c.ID != 0 && after[c.ID] {
+					fail("disk_limit_erase", fmt.Sprintf("t=base%s id=%d thrown out of the queue but still known on disk", rel(base, c.Time), c.ID))
+				}
+				ops = append(ops, fmt.Sprintf("OPop %s", rel(base, nowReal)), fmt.Sprintf("OEraseIter %d%%nat %s 86400 true false", ki.key, rel(base, nowReal)))
+				obs = append(obs, fmt.Sprintf("(RPop (Some (%s, %d, %s)))", rel(base, c.Time), c.ID, vu.B(c.HasData)), "(RIter true false true)")
+			}
+			inHist := map[int64]bool{}
+			for _, c := range h {
+				inHist[c.ID] = true
+			}
+			for id := range before {
+				if !after[id] && !inHist[id] {
+					fail("disk_limit_erase", fmt.Sprintf("id=%d erased although it was not in the historic queue", id))
+				}
+			}
+			text = append(text, fmt.Sprintf("eraseAllOverDiskLimit(%d)", len(h)))
+			kinds["disklimit"] = true
+			// restart
+			for _, ki := range keys {
+				if !ki.saved && !ki.acked && !ki.windowOut && !ki.memDrop && !ki.diskLimit {
+					ki.crashed = true
+				}
+			}
+			v.Close()
+			out = nil
+			a = makeAgent(dir, addrs)
+			v = agent.NewVerifPipe(a)
+			run++
+			ops = append(ops, fmt.Sprintf("ORestart %d%%nat", restartReads))
+			obs = append(obs, "RNone")
+			text = append(text, "restart")
+			kinds["restart"] = true
 		case choice < 94 && diskOn: // restart
 			checkForgotten("before restart", run)
 			for _, ki := range keys {
-				if !ki.saved && !ki.acked && !ki.windowOut && !ki.memDrop {
+				if !ki.saved && !ki.acked && !ki.windowOut && !ki.memDrop && !ki.diskLimit {
 					ki.crashed = true
 					kinds["crash"] = true
 				}
@@ -502,7 +561,7 @@ func agentHistory(r *vu.Rng, o *vu.Out, addrs []string, sc *script, caseNo int, 
 	if diskOn {
 		checkForgotten("before final restart", run)
 		for _, ki := range keys {
-			if !ki.saved && !ki.acked && !ki.windowOut && !ki.memDrop {
+			if !ki.saved && !ki.acked && !ki.windowOut && !ki.memDrop && !ki.diskLimit {
 				ki.crashed = true
 			}
 		}
@@ -543,6 +602,25 @@ func agentHistory(r *vu.Rng, o *vu.Out, addrs []string, sc *script, caseNo int, 
 	o.Case(fmt.Sprintf("agent case=%d disk=%v %s base=%d: %s", caseNo, diskOn, mode, base, strings.Join(text, " ")), term, nontrivial, ks...)
 }
 
+// eraseAllPossible: some second was written to disk in this run (the size limit can be exceeded), the queue is not
+// empty and holds only seconds of the past (the eraser pops them all)
+func eraseAllPossible(v *agent.VerifPipe, keys map[int]*keyInfo, run int) bool {
+	saved := false
+	for _, ki := range keys {
+		if ki.saved && ki.run == run {
+			saved = true
+		}
+	}
+	h := v.Hist()
+	now := uint32(time.Now().Unix())
+	for _, c := range h {
+		if c.Time+2 >= now {
+			return false
+		}
+	}
+	return saved && len(h) > 0 && len(h) <= 4
+}
+
 func main() {
 	seed := flag.Uint64("seed", 1, "")
 	n := flag.Int("n", 300, "")
@@ -555,9 +633,11 @@ func main() {
 	sc := &script{answer: "keep"}
 	addrs, stop := startServers(sc)
 	defer stop()
+	wire := startWire(makeAgent("", addrs)) // real-time scenario, runs while the histories are generated
 	nAgent := *n / 4
 	for i := 0; i < nAgent; i++ {
 		agentHistory(r, o, addrs, sc, i, 12+r.Intn(24))
 	}
 	aggCases(r, o, addrs, *n-nAgent)
+	wire.finish(o)
 }
